@@ -39,7 +39,7 @@ func c11Gen(r *rand.Rand, tier string, idx int) any {
 	p := &C11Params{}
 	var core string
 	p.C, p.Srv, core = genCompatiblePair(r)
-	twists := []string{"none", "none", "version", "suites", "keytype", "curves", "srtp", "alpn", "ems", "history-ems", "history-lists", "random-lists"}
+	twists := []string{"none", "none", "version", "suites", "keytype", "curves", "srtp", "alpn", "ems", "history-ems", "history-lists", "random-lists", "sigschemes", "sigschemes"}
 	p.Twist = twists[r.IntN(len(twists))]
 	is12 := p.C.MaxVer == 12 && p.Srv.MaxVer == 12
 	switch p.Twist {
@@ -77,6 +77,18 @@ func c11Gen(r *rand.Rand, tier string, idx int) any {
 	case "curves":
 		if p.C.PSK == "" || (len(p.C.Suites) > 0 && p.C.Suites[0] == suiteECDHEPSKCBC) {
 			p.C.Curves, p.Srv.Curves = disjointSplit(r, curvesAll)
+		} else {
+			p.Twist = "none"
+		}
+	case "sigschemes":
+		// signature_algorithms: disjoint lists (no common scheme), or random overlapping ones
+		if p.Srv.Cert != "" && certKind(p.Srv.Cert) == "ecdsa" {
+			if r.IntN(2) == 0 {
+				p.C.SigSchemes, p.Srv.SigSchemes = disjointSplit(r, sigSchemesECDSA)
+			} else {
+				p.C.SigSchemes = subsetWith(r, sigSchemesECDSA, sigSchemesECDSA[r.IntN(len(sigSchemesECDSA))])
+				p.Srv.SigSchemes = subsetWith(r, sigSchemesECDSA, sigSchemesECDSA[r.IntN(len(sigSchemesECDSA))])
+			}
 		} else {
 			p.Twist = "none"
 		}
@@ -139,6 +151,9 @@ func c11Gen(r *rand.Rand, tier string, idx int) any {
 
 	return p
 }
+
+// schemes an ECDSA key can sign with (in TLS 1.2 the hash is independent of the curve)
+var sigSchemesECDSA = []uint16{0x0403, 0x0503, 0x0603}
 
 func certKind(name string) string {
 	switch name {
@@ -271,6 +286,11 @@ func judgePolicy(c, s EpSpec) policyVerdict {
 
 		return v
 	}
+	if s.Cert != "" && len(c.SigSchemes) > 0 && len(s.SigSchemes) > 0 && !intersects(c.SigSchemes, s.SigSchemes) {
+		v.MustFail = "sigschemes"
+
+		return v
+	}
 	if v.Version == 12 && ((c.EMS == 1 && s.EMS == 2) || (c.EMS == 2 && s.EMS == 1)) {
 		v.MustFail = "ems"
 	}
@@ -293,6 +313,12 @@ func c11Judge(rc *RunCtx, pair *Pair, n *SimNet, c, s EpSpec, which string) bool
 		for _, r := range recs {
 			if !r.Unified && r.Type == CTAlert && r.Epoch == 0 && len(r.Body) == 2 && r.Body[0] == 2 {
 				fatalAlerts++
+			}
+			// once a connection ID is negotiated the library frames even its epoch-0 alerts as
+			// tls12_cid records with a cleartext inner plaintext (level, description, real type 21)
+			if !r.Unified && r.Type == CTCID && r.Epoch == 0 && len(r.Body) == 3 && r.Body[0] == 2 && r.Body[2] == CTAlert {
+				fatalAlerts++
+				rc.S.Probe("epoch-0-alert-in-tls12_cid-framing")
 			}
 		}
 	}
@@ -379,6 +405,19 @@ func c11Judge(rc *RunCtx, pair *Pair, n *SimNet, c, s EpSpec, which string) bool
 			rc.Violate("group-out-of-policy", "%s: key-exchange group %#04x; client allows %v, server allows %v", which, group, c.Curves, s.Curves)
 
 			return false
+		}
+	}
+	// signature scheme of the server's key-exchange signature (DTLS 1.2: visible on the wire)
+	if v.Version == 12 && s.Cert != "" {
+		if skes := col.Of(pair.SName, HTServerKeyExchange); len(skes) > 0 {
+			if scheme, ok := ServerKeyExchangeScheme(skes[len(skes)-1].Body); ok {
+				rc.S.Probe("signature-scheme-checked")
+				if (len(c.SigSchemes) > 0 && !inU16(c.SigSchemes, scheme)) || (len(s.SigSchemes) > 0 && !inU16(s.SigSchemes, scheme)) {
+					rc.Violate("sigscheme-out-of-policy", "%s: ServerKeyExchange is signed with scheme %#04x; client offers %#04x, server allows %#04x", which, scheme, c.SigSchemes, s.SigSchemes)
+
+					return false
+				}
+			}
 		}
 	}
 	// SRTP / ALPN
